@@ -285,19 +285,24 @@ def include_cases(rep):
                  "self.bard": ":: Start\n@include self.bard\n",
                  "broken_child.bard": ":: Start\n@include child.bard\n", "child.bard": "@if x:\n",
                  "empty_inc.bard": "@include \n:: Start\nx\n", "dir_inc.bard": "@include .\n:: Start\nx\n"}
+        # a (non-cyclic) chain of includes deeper than the interpreter's recursion limit
+        for i in range(1150):
+            files[f"deep{i}.bard"] = (f"@include deep{i + 1}.bard\n" if i < 1149 else "") + f":: D{i}\nx\n"
         for k, v in files.items():
             open(os.path.join(d, k), "w").write(v)
         for k in files:
+            if k.startswith("deep") and k != "deep0.bard":
+                continue
             n += 1
             try:
                 with quiet(), time_limit(20):
                     BardCompiler().compile_file(os.path.join(d, k), os.path.join(d, "out.json"))
             except Timeout:
-                rep.violations.append({"cls": None, "family": "c11-include", "what": f"compile_file({k}) does not terminate", "files": files})
+                rep.violations.append({"cls": None, "family": "c11-include", "what": f"compile_file({k}) does not terminate", "files": {a: b for a, b in files.items() if not a.startswith("deep")}})
             except BaseException as e:  # noqa
                 c = classify(e, e.__traceback__, allow_fnf=True)
                 if c != "diag" and not isinstance(e, OSError):
-                    rep.violations.append({"cls": None, "family": "c11-include", "what": f"compile_file({k}): {c}", "files": files})
+                    rep.violations.append({"cls": None, "family": "c11-include", "what": f"compile_file({k}): {c}", "files": {a: b for a, b in files.items() if not a.startswith("deep")}})
     finally:
         shutil.rmtree(d, ignore_errors=True)
     rep.coverage.setdefault("families", {})["c11-include"] = {"cases": n}
